@@ -252,9 +252,27 @@ def r19_5(ctx):
     n = 0
 
     def decoded(f, a0):
-        if isinstance(a0, ast.Name):
-            return any(isinstance(d, ast.Assign) and norm(d.targets[0]) == a0.id and "decode_line" in norm(d.value) for d in walk_local(f.node))
-        return a0 is not None and "decode_line" in norm(a0)
+        """the printed value is computed from the result of <decoder>.decode_line(..): backward closure over the assignments and
+        the append / extend calls that build it (bound-method aliases resolved)"""
+        if a0 is None:
+            return False
+        al = alias_map(f.node)
+        seen, work = set(), [a0]
+        while work:
+            e = work.pop()
+            for nd in ast.walk(e):
+                if isinstance(nd, ast.Call):
+                    fn_ = expand_alias(nd.func, al)
+                    if isinstance(fn_, ast.Attribute) and fn_.attr in ("decode_line", "decode"):
+                        return True
+                if isinstance(nd, ast.Name) and nd.id not in seen:
+                    seen.add(nd.id)
+                    for d in walk_local(f.node):
+                        if isinstance(d, (ast.Assign, ast.AnnAssign)) and d.value is not None and any(isinstance(t, ast.Name) and t.id == nd.id for t in (d.targets if isinstance(d, ast.Assign) else [d.target])):
+                            work.append(d.value)
+                        if isinstance(d, ast.Call) and isinstance(d.func, ast.Attribute) and d.func.attr in ("append", "extend", "insert") and isinstance(d.func.value, ast.Name) and d.func.value.id == nd.id:
+                            work.extend(d.args)
+        return False
     # print wrappers: methods of the proxy that print their own parameter; the decoded-ness obligation moves to their callers
     wrappers = {}
     for name, lst in c.methods.items():
@@ -459,7 +477,8 @@ def r19_11(ctx):
         for nd in g.stmt_nodes():
             if nd.kind != "stmt" or not isinstance(nd.stmt, ast.Assign) or len(nd.stmt.targets) != 1:
                 continue
-            t, v = nd.stmt.targets[0], nd.stmt.value
+            from ..astutil import inline as _inl1911, single_defs as _sdf1911
+            t, v = nd.stmt.targets[0], _inl1911(nd.stmt.value, _sdf1911(f.node))
             stream = None
             if norm(t) in ("sys.stdout", "sys.stderr"):
                 stream = norm(t).split(".")[1]
@@ -474,7 +493,7 @@ def r19_11(ctx):
             ok = (want, True) in facts
             ctx.check(ok, f.fq, short(nd.stmt), f"{m.relpath}:{nd.lineno}", f"{stream} handled under `{want}`",
                       f"`{short(nd.stmt)}` handles sys.{stream} but is not guarded by `{want}`" + (f" (it is guarded by `{other}`)" if (other, True) in facts else "") + f": with redirect_{stream}=True and the other flag off, what is written to {stream} during the live display goes straight to the terminal instead of being printed through the console above the frame")
-    ctx.floor(n, 8, "stream save / install statements in _enable_redirect_io")
+    ctx.floor(n, 4, "stream save / install statements in _enable_redirect_io")
 
 
 RULES = [r19_1, r19_2, r19_3, r19_4, r19_5, r19_6, r19_8, r19_9, r19_10, r19_11]
